@@ -25,6 +25,7 @@ def run(ctx) -> None:
     r3_load_paths(ctx)
     r4_output_switch(ctx)
     r5_every_reference_holder(ctx)
+    r6_lookup_table(ctx)
 
 
 def _ordering_step(ctx, fi: FuncInfo) -> None:
@@ -434,3 +435,35 @@ def r4_output_switch(ctx) -> None:
                 r.violation("C09.R4", q, stmt_head(rt), "queries returned without testing rule._output", loc)
     # finalisation of sub-queries depends on backreferences only
     r.floor("C09.R4", 4)
+
+
+def r6_lookup_table(ctx, rid: str = "C09.R6") -> None:
+    """A rule is found by its id or by its name, whatever the name looks like. SigmaCollection.__getitem__ interpreted
+    (sa.tabulate; uuid.UUID is the only library object) on a stand-in collection."""
+    from uuid import UUID
+    from ..tabulate import Interp, Raised
+    r, prog = ctx.r, ctx.prog
+    r.rule(rid, "rule lookup by reference text: SigmaCollection.__getitem__, interpreted on a stand-in collection, finds a rule by its id in any UUID spelling, by its name — also a name that itself reads as a UUID (a 32-digit hex digest) —, and answers SigmaRuleNotFoundError for everything else")
+    f = prog.func(COLL + ".__getitem__")
+    uid = UUID("9a6b8f0e-3c1d-4e2a-8b7c-1d2e3f4a5f60")
+    me = type("C", (), {})()
+    me.rules = ["R1", "R2", "R3"]
+    me.ids_to_rules = {uid: "R1"}
+    me.names_to_rules = {"base": "R2", "d41d8cd98f00b204e9800998ecf8427e": "R3"}
+    cases = [(str(uid), "R1"), (str(uid).upper(), "R1"), (uid, "R1"), ("base", "R2"), ("d41d8cd98f00b204e9800998ecf8427e", "R3"),
+             ("nosuchrule", "<not found>"), ("00000000-0000-0000-0000-000000000000", "<not found>"), (1, "R2"), (7, "<not found>")]
+    bad = []
+    for key, want in cases:
+        it = Interp({"self": me, "i": key, "UUID": UUID, "SigmaRuleNotFoundError": type("SigmaRuleNotFoundError", (Exception,), {}),
+                     "ValueError": ValueError, "KeyError": KeyError, "IndexError": IndexError}, max_steps=300, behaviours=(ValueError, TypeError, AttributeError))
+        try:
+            got = it.call(f.node.body)
+        except Raised as ex:
+            got = "<not found>" if "SigmaRuleNotFoundError" in str(ex) else f"<raises {ex}>"
+        if got != want:
+            bad.append(f"[{key!r}] gives {got}, expected {want}")
+    if bad:
+        r.violation(rid, f.qual, f"lookup {bad[0]}", f"{len(bad)} of {len(cases)} interpreted lookups deviate: a reference (correlation `rules`, filter `rules`, alias keys) names a rule by id or by name; a name that parses as a UUID must still be found by name, and a miss is a SigmaRuleNotFoundError", f.loc)
+    else:
+        r.ok(rid, f.qual, f"{len(cases)} lookups (id spellings, names, UUID-like names, misses, positions) answer as specified", f.loc)
+    r.floor(rid, 1)
